@@ -267,6 +267,30 @@ void quot_all(sink& out, int salt)
     quot(out, ls, rs);
 }
 
+// conversions only, both directions (pairs of different radix: the arithmetic operators do not mix radices)
+template<class LT, class RT>
+void conv_all(sink& out, int salt)
+{
+    auto lw = number_values<LT>(thorough() ? 60 : 16, static_cast<std::uint64_t>(salt) * 10 + 5, 1, false);
+    auto rw = number_values<RT>(thorough() ? 60 : 16, static_cast<std::uint64_t>(salt) * 10 + 6, 1, false);
+    for (long long k = -1300; k <= 1300; k += 97) {      // small values survive every scaling step
+        using LI = innermost_t<LT>;
+        using RI = innermost_t<RT>;
+        if (k >= 0 || is_signed_int<LI>) {
+            if (static_cast<i128>(k) >= static_cast<i128>(cnl::unwrap(std::numeric_limits<LT>::lowest())) && static_cast<i128>(k) <= static_cast<i128>(cnl::unwrap(std::numeric_limits<LT>::max()))) {
+                lw.push_back(make<LT>(k < 0, static_cast<u128>(k < 0 ? -k : k)));
+            }
+        }
+        if (k >= 0 || is_signed_int<RI>) {
+            if (static_cast<i128>(k) >= static_cast<i128>(cnl::unwrap(std::numeric_limits<RT>::lowest())) && static_cast<i128>(k) <= static_cast<i128>(cnl::unwrap(std::numeric_limits<RT>::max()))) {
+                rw.push_back(make<RT>(k < 0, static_cast<u128>(k < 0 ? -k : k)));
+            }
+        }
+    }
+    conv<LT, RT>(out, lw);
+    conv<RT, LT>(out, rw);
+}
+
 template<class T>
 void single_all(sink& out, int salt)
 {
